@@ -6,6 +6,7 @@
 From Coq Require Import QArith.
 From TU Require Import Base C13_Model C13_Walk C13_F1 C13_Ws C13_Sp C13_Proofs.
 From TU Require C10_Model C11_Model C12_Model C18_Model.
+From TU Require UAX29_Model NFKC_Model C11_UAX29 C13_NSeam C13_NFKC C13_Raw C13_RawFl.
 From Coq Require Reals Qreals.
 From Flocq Require Core IEEE754.BinarySingleNaN.
 From Coq Require Lra.
@@ -163,6 +164,143 @@ Print Assumptions sp_unchanged.
 Theorem check_run : forall v, premise_C13 v = true -> check_C13 v (run_C13 v) = true.
 Proof. exact check_run_l. Qed.
 Print Assumptions check_run.
+
+
+(** ** the RAW texts: [prep s = normalize(clean(s, true), NFKC, true)] computed by the model itself
+    (UAX29_Model.segment, C11_Model.clean, NFKC_Model.normalize_model), and the premise "the prepared
+    text is clean" replaced by [kf3_free g s], a decidable condition on the raw text alone:
+      no_mixedb s            no cluster of s mixes White_Space with other code points
+      && avoids s            no code point of s is one of the 52 of NFKC_Model.nfkc_makes_space
+      && (g = true -> seams_ok (words s))   between two words: no Prepend at the end of the first, no
+                                            Extend / SpacingMark / ZWJ at the start of the second *)
+Module N.
+Import UAX29_Model NFKC_Model.
+Local Open Scope N_scope.
+
+(** NFKC and the two ends of a piece of text, as the segmenter sees them: whether the first code point
+    attaches to a preceding space, and whether the last is a Prepend, can be read off the compatibility
+    decomposition of that one code point (reordering and composition do not matter) ... *)
+Theorem nfkc_first_joinable : forall d x rest,
+  ws_joinable (hd d (nfkc (x :: rest))) = ws_joinable (hd d (decompose_char true x)).
+Proof. exact C13_NSeam.nfkc_hd_joinable. Qed.
+Print Assumptions nfkc_first_joinable.
+
+Theorem nfkc_last_prepend : forall d u y, is_prepend d = false ->
+  is_prepend (last (nfkc (u ++ [y])) d) = is_prepend (last (decompose_char true y) d).
+Proof. exact C13_NSeam.nfkc_last_prepend. Qed.
+Print Assumptions nfkc_last_prepend.
+
+(** ... and the decomposition does not change them either (all 5930 table entries, Hangul by arithmetic) *)
+Theorem nfkc_keeps_seam_classes : forall c,
+  ws_joinable (hd 32 (decompose_char true c)) = ws_joinable c
+  /\ is_prepend (last (decompose_char true c) 32) = is_prepend c.
+Proof. exact C13_NFKC.decompose_char_seam. Qed.
+Print Assumptions nfkc_keeps_seam_classes.
+
+(** the prepared text is whitespace-clean (no seam condition needed) *)
+Theorem prep_clean_n : forall s, no_mixedb s = true -> avoids s = true -> C11_Model.cleansb (prep s) = true.
+Proof. exact C13_NFKC.prep_cleansb. Qed.
+Print Assumptions prep_clean_n.
+
+(** its words are the words of the raw text, each normalised cluster by cluster, in order *)
+Theorem prep_words_n : forall s,
+  no_mixedb s = true -> avoids s = true -> seams_ok (C11_Model.words s) = true ->
+  prep s = C11_Model.join [32] (map (normalize_model NFKC true) (C11_Model.words s))
+  /\ C11_Model.words (prep s) = map (normalize_model NFKC true) (C11_Model.words s).
+Proof. exact (fun s Hm Ha Hs => conj (C13_NFKC.prep_words s Hm Hs) (C13_NFKC.words_prep s Hm Ha Hs)). Qed.
+Print Assumptions prep_words_n.
+
+(** "no mixed cluster after normalisation": the half of KF3 that NFKC_Props leaves open *)
+Theorem prep_no_mixed_n : forall s,
+  no_mixedb s = true -> avoids s = true -> seams_ok (C11_Model.words s) = true -> no_mixedb (prep s) = true.
+Proof. exact C13_NFKC.prep_no_mixed. Qed.
+Print Assumptions prep_no_mixed_n.
+
+(** [kf3_free] on the raw text gives the premise of every spelling theorem above, in both modes *)
+Theorem kf3_free_clean_text : forall g s, kf3_free g s = true -> clean_text (text_of g s) = true.
+Proof. exact C13_NFKC.kf3_free_clean_text. Qed.
+Print Assumptions kf3_free_clean_text.
+
+(** the condition and the class (as the harness decides it on the prepared text) are disjoint; in
+    code-point mode a text of the property's domain that avoids the set is never in the class.
+    No "iff": [kf3_free] is sufficient, not necessary (third statement: U+FDFA is in the set, its NFKC is
+    four words separated by single spaces) — and the class is inhabited ("x ¨", fourth statement). *)
+Theorem kf3_free_not_class : forall g s, kf3_free g s = true -> kf3_class g s = false.
+Proof. exact C13_NFKC.kf3_free_not_class. Qed.
+Print Assumptions kf3_free_not_class.
+
+Theorem kf3_class_cp : forall s, no_mixedb s = true -> avoids s = true -> kf3_class false s = false.
+Proof. exact C13_NFKC.kf3_class_cp. Qed.
+Print Assumptions kf3_class_cp.
+
+Theorem kf3_class_exact_refuted :
+  (exists s, kf3_free true s = false /\ kf3_free false s = false /\ kf3_class true s = false /\ kf3_class false s = false)
+  /\ (exists s, no_mixedb s = true /\ kf3_class true s = true /\ kf3_class false s = true).
+Proof.
+  split; [exists [65018]; exact C13_NFKC.kf3_free_not_necessary|].
+  exists [120; 32; 168]. destruct C13_NFKC.kf3_class_witness as (A & B & _ & _ & C). exact (conj C (conj A B)).
+Qed.
+Print Assumptions kf3_class_exact_refuted.
+End N.
+
+(** the word walk on raw texts *)
+Theorem group_walk_ok_n : forall g i p ops mp,
+  kf3_free g i = true -> kf3_free g p = true ->
+  text_of g i <> [] -> text_of g p <> [] ->
+  C12_Model.script_ok sp_flags ops (text_of g i) (text_of g p) = true ->
+  exists mg ins pp correct,
+    attribute (C11_Model.word_boundaries (text_of g i)) (text_of g i) (text_of g p) ops = Some (mg, ins)
+    /\ walk (S (length (C11_Model.word_boundaries (text_of g i)))) (length (C11_Model.word_boundaries (text_of g i)))
+            mg ins mp 0 0 [] = Some (length (C11_Model.word_boundaries (text_of g i)), pp, correct)
+    /\ pp = length (C11_Model.word_boundaries (text_of g p))
+    /\ ((forall x, x < pp -> mem_nat x mp = true) ->
+        forall w, w < length (C11_Model.word_boundaries (text_of g i)) -> In w correct).
+Proof. exact C13_Raw.group_walk_ok_n_l. Qed.
+Print Assumptions group_walk_ok_n.
+
+(** spelling_correction_f1 of the model on RAW texts: if every input and every prediction is [kf3_free]
+    (targets: anything) the panic value is never produced; Err exactly on a length mismatch; otherwise Ok
+    with all three values in [0,1] (rational level; the binary64 statement is [Fl.spelling_total_fl_n]) *)
+Theorem spelling_total_n : forall beta sa g inputs preds targets,
+  forallb (kf3_free g) inputs = true -> forallb (kf3_free g) preds = true ->
+  sp_f1 beta sa (C13_Raw.texts g inputs) (C13_Raw.texts g preds) (C13_Raw.texts g targets) <> Panic
+  /\ if same3 inputs preds targets
+     then exists vals,
+            sp_f1 beta sa (C13_Raw.texts g inputs) (C13_Raw.texts g preds) (C13_Raw.texts g targets) = Ok (aggregate sa beta vals)
+            /\ Forall2 (fun x c => match x with (i, p, t) => sp_tp_fp_fn i p t = Some c end)
+                       (zip3 (C13_Raw.texts g inputs) (C13_Raw.texts g preds) (C13_Raw.texts g targets)) vals
+            /\ fpr01 (aggregate sa beta vals)
+     else sp_f1 beta sa (C13_Raw.texts g inputs) (C13_Raw.texts g preds) (C13_Raw.texts g targets) = Err.
+Proof. exact C13_Raw.spelling_total_n_l. Qed.
+Print Assumptions spelling_total_n.
+
+(** calibration on raw texts: prediction = target after preparation: no false positive or negative;
+    prediction = input after preparation: no true positive (all texts) *)
+Theorem sp_pred_eq_target_n : forall g i p t e tp fp fn,
+  kf3_free g i = true -> kf3_free g p = true -> prep p = prep t ->
+  sp_tp_fp_fn (text_of g i) (text_of g p) (text_of g t) = Some (e, tp, fp, fn) -> fp = 0 /\ fn = 0.
+Proof. exact C13_Raw.sp_pred_eq_target_n_l. Qed.
+Print Assumptions sp_pred_eq_target_n.
+
+Theorem sp_unchanged_n : forall g i p t e tp fp fn,
+  prep p = prep i ->
+  sp_tp_fp_fn (text_of g i) (text_of g p) (text_of g t) = Some (e, tp, fp, fn) -> tp = 0.
+Proof. exact C13_Raw.sp_unchanged_n_l. Qed.
+Print Assumptions sp_unchanged_n.
+
+(** the executable statement holds of the model's output computed from the RAW texts (the [data] field
+    recomputed by the model: [rawify]); for the spelling metric under [kf3_free] of inputs and predictions.
+    This is the domain inside which the harness withholds the tag class:KF3. *)
+Theorem check_run_n : forall v, premise_n v = true -> check_C13 (rawify v) (run_C13N v) = true.
+Proof. exact C13_Raw.check_run_n_l. Qed.
+Print Assumptions check_run_n.
+
+(** KF3 is real in the model too: "x ¨" / "x" / "x ¨" in code-point mode yields the panic value *)
+Theorem kf3_panic_witness :
+  sp_f1 1 false (C13_Raw.texts false [[120; 32; 168]%N]) (C13_Raw.texts false [[120]%N]) (C13_Raw.texts false [[120; 32; 168]%N]) = Panic
+  /\ kf3_free false [120; 32; 168]%N = false.
+Proof. exact C13_Raw.kf3_panic_witness_l. Qed.
+Print Assumptions kf3_panic_witness.
 
 (** ** binary64: the arithmetic of the metrics inside the model (C13_Float.v) *)
 Module Fl.
@@ -347,6 +485,26 @@ Example f1_fl_example :
           SpecFloat.S754_finite false 4503599627370496 (-52),
           SpecFloat.S754_finite false 6755399441055744 (-53)).
 Proof. vm_compute. reflexivity. Qed.
+
+(** spelling_correction_f1 of the binary64 model on RAW texts: [kf3_free] inputs and predictions: never the
+    panic value, Err exactly on a length mismatch, otherwise Ok, and F, precision, recall are finite
+    binary64 numbers in [0,1] (summed counts below 2^53, beta with a finite square) *)
+Theorem spelling_total_fl_n : forall beta sa g inputs preds targets,
+  forallb (kf3_free g) inputs = true -> forallb (kf3_free g) preds = true ->
+  sp_f1_fl beta sa (C13_Raw.texts g inputs) (C13_Raw.texts g preds) (C13_Raw.texts g targets) <> Panic
+  /\ if same3 inputs preds targets
+     then exists vals,
+            sp_f1_fl beta sa (C13_Raw.texts g inputs) (C13_Raw.texts g preds) (C13_Raw.texts g targets) = Ok (aggregate_fl sa beta vals)
+            /\ Forall2 (fun x c => match x with (i, p, t) => sp_tp_fp_fn i p t = Some c end)
+                       (zip3 (C13_Raw.texts g inputs) (C13_Raw.texts g preds) (C13_Raw.texts g targets)) vals
+            /\ (is_finite (fmul beta beta) = true ->
+                (Z.of_nat (total tp_of vals + total fp_of vals) < 2 ^ 53)%Z /\
+                (Z.of_nat (total tp_of vals + total fn_of vals) < 2 ^ 53)%Z ->
+                (Z.of_nat (length vals) <= 2 ^ 53)%Z ->
+                let x := aggregate_fl sa beta vals in fin01 (c1f x) /\ fin01 (c2f x) /\ fin01 (c3f x))
+     else sp_f1_fl beta sa (C13_Raw.texts g inputs) (C13_Raw.texts g preds) (C13_Raw.texts g targets) = Err.
+Proof. exact C13_RawFl.spelling_total_fl_n_l. Qed.
+Print Assumptions spelling_total_fl_n.
 End Fl.
 
 (** ** non-vacuity *)
@@ -367,3 +525,21 @@ Example premise_witness :
   premise_C13 (L [I 4; L [L [I 1; I 1]; I 0; I 0];
                   L [L [L [L [I 97]; L [I 32]; L [I 98]]]; L [L []]; L [L [L [I 97]; L [I 32]; L [I 98]]]]; L []])%Z = true.
 Proof. vm_compute. reflexivity. Qed.
+
+(** [kf3_free] on a non-trivial raw text: "ﬁ  é\n中" (ligature, double space, precomposed e-acute, line feed, CJK):
+    free in both modes, prepared to "fi é 中" *)
+Example kf3_free_witness :
+  kf3_free true [64257; 32; 32; 233; 10; 20013]%N = true /\ kf3_free false [64257; 32; 32; 233; 10; 20013]%N = true
+  /\ prep [64257; 32; 32; 233; 10; 20013]%N = [102; 105; 32; 233; 32; 20013]%N.
+Proof. vm_compute. repeat split; reflexivity. Qed.
+(** ... and a text that is free in code-point mode only: "a\n" + U+0301 (the acute would attach to the space) *)
+Example kf3_free_seam_witness :
+  kf3_free false [97; 10; 769]%N = true /\ kf3_free true [97; 10; 769]%N = false /\ kf3_class true [97; 10; 769]%N = true.
+Proof. vm_compute. repeat split; reflexivity. Qed.
+(** the premise of [check_run_n]: spelling F1 on the raw triple " a  b" / "ab" / "a b" in grapheme mode, with the
+    oracle field as the model computes it *)
+Example premise_n_witness :
+  let v := L [I 4; L [L [I 1; I 1]; I 0; I 1]; L [];
+              L [L [L [I 32; I 97; I 32; I 32; I 98]]; L [L [I 97; I 98]]; L [L [I 97; I 32; I 98]]]; L []]%Z in
+  premise_n v = true /\ prep_agree (rawify v) = true.
+Proof. vm_compute. split; reflexivity. Qed.
